@@ -104,6 +104,14 @@ def build_groups(rng, tier):
                     flat = special_data(rng, flat)
                     qx = [rng.choice(xs) if rng.random() < 0.6 else q for q in qx]
                     qy = [rng.choice(ys) if rng.random() < 0.6 else q for q in qy]
+            if nq >= 2 and rng.random() < 0.2:
+                # one coordinate the same for every point, the other varying (a mesh line): the constant array is handed over as a
+                # broadcast view with all strides 0 half of the time (seed C09-r10m1: a "broadcast query" shortcut in Interp2D decided
+                # from the strides of xs alone, applied to ys too)
+                if rng.random() < 0.5:
+                    qx = [qx[0]] * nq
+                else:
+                    qy = [qy[0]] * nq
             # just outside / far outside coordinates: with extrapolation every entry point continues the border cell identically,
             # without it every entry point rejects the same element (x before y)
             ext2 = rng.random() < 0.3
